@@ -11,6 +11,7 @@ package wire
 // usable result (C12/C11).
 
 import (
+	"context"
 	"fmt"
 	"go/ast"
 	"go/token"
@@ -29,6 +30,7 @@ type recogEnv struct {
 	G       *types.Named // a second named struct, playing an instantiated generic
 	C       *types.Named // struct{} with method M(): implements I
 	J, K    *types.Named // interfaces: J lacks M, K has M and more
+	S1      *types.Named // struct{ A int }
 	fset    *token.FileSet
 }
 
@@ -47,6 +49,7 @@ func newRecogEnv() *recogEnv {
 		types.NewField(token.NoPos, e.pkg, "B", types.Typ[types.String], false),
 	}, nil)
 	e.S = types.NewNamed(types.NewTypeName(token.NoPos, e.pkg, "S", nil), st, nil)
+	e.S1 = types.NewNamed(types.NewTypeName(token.NoPos, e.pkg, "S1", nil), types.NewStruct([]*types.Var{types.NewField(token.NoPos, e.pkg, "A", types.Typ[types.Int], false)}, nil), nil)
 	e.G = types.NewNamed(types.NewTypeName(token.NoPos, e.pkg, "G", nil), st, nil)
 	msig := types.NewSignature(nil, nil, nil, false)
 	iface := types.NewInterfaceType([]*types.Func{types.NewFunc(token.NoPos, e.pkg, "M", msig)}, nil)
@@ -110,6 +113,10 @@ func (e *recogEnv) ptrExpr(tag string, what int) (ast.Expr, types.Type) {
 	case 4:
 		elem = types.NewStruct([]*types.Var{types.NewField(token.NoPos, e.pkg, "A", types.Typ[types.Int], false)}, nil)
 		tyExpr = &ast.StructType{Fields: &ast.FieldList{}}
+	case 10:
+		elem, tyExpr = e.S1, e.typeIdent(e.S1)
+	case 11:
+		elem, tyExpr = types.NewPointer(e.N), &ast.StarExpr{X: e.typeIdent(e.N)}
 	case 8:
 		elem, tyExpr = e.J, e.typeIdent(e.J)
 	case 9:
@@ -128,14 +135,14 @@ func (e *recogEnv) ptrExpr(tag string, what int) (ast.Expr, types.Type) {
 	case 0: // new(T)
 		x = &ast.CallExpr{Fun: e.ident("new", types.Universe.Lookup("new")), Args: []ast.Expr{tyExpr}}
 	case 1: // new(pkg.T)
-		if what != 0 && what != 2 && what != 3 && what != 6 && what != 8 && what != 9 {
+		if what != 0 && what != 2 && what != 3 && what != 6 && what != 8 && what != 9 && what != 10 {
 			vPrune()
 		}
 		other := types.NewPkgName(token.NoPos, e.pkg, "user2", e.pkg)
 		n := elem.(*types.Named)
 		x = &ast.CallExpr{Fun: e.ident("new", types.Universe.Lookup("new")), Args: []ast.Expr{&ast.SelectorExpr{X: e.ident("user2", other), Sel: e.typeIdent(n)}}}
 	case 2: // &T{} (composite literals exist for struct types only here)
-		if what != 0 && what != 4 && what != 5 && what != 6 {
+		if what != 0 && what != 4 && what != 5 && what != 6 && what != 10 {
 			vPrune()
 		}
 		x = &ast.UnaryExpr{Op: token.AND, X: &ast.CompositeLit{Type: tyExpr}}
@@ -178,10 +185,10 @@ func checkErrs(errs []error) {
 
 func H_recog_struct() {
 	e := newRecogEnv()
-	what := vConc(vInt("what", 0, 5))
+	what := []int{0, 1, 2, 3, 4, 5, 10}[vConc(vInt("what", 0, 6))]
 	arg0, _ := e.ptrExpr("a0", what)
 	args := []ast.Expr{arg0}
-	nf := vConc(vInt("nfields", 0, 2))
+	nf := vConc(vInt("nfields", 0, 3))
 	for i := 0; i < nf; i++ {
 		args = append(args, e.fieldArg(fmt.Sprintf("f%d", i)))
 	}
@@ -195,8 +202,8 @@ func H_recog_struct() {
 	vCover("struct-accepted")
 	vA("C20,C12", p != nil && p.Pkg != nil && p.Name != "", "an accepted wire.Struct names the struct type it constructs")
 	if p != nil && p.Pkg != nil {
-		vA("C12", what == 0 || what == 5, "only a pointer to a named struct type is accepted")
-		vA("C12", p.Name == "S" || p.Name == "G", "the provider is named after the struct type")
+		vA("C12", what == 0 || what == 5 || what == 10, "only a pointer to a named struct type is accepted")
+		vA("C12", p.Name == "S" || p.Name == "G" || p.Name == "S1", "the provider is named after the struct type")
 		vA("C12", p.IsStruct && len(p.Out) == 2, "struct provider provides S and *S")
 	}
 }
@@ -237,7 +244,7 @@ func H_recog_bind() {
 
 func H_recog_fieldsof() {
 	e := newRecogEnv()
-	what := vConc(vInt("what", 0, 4))
+	what := []int{0, 1, 2, 3, 4, 10, 11}[vConc(vInt("what", 0, 6))]
 	arg0, _ := e.ptrExpr("a0", what)
 	args := []ast.Expr{arg0}
 	nf := vConc(vInt("nfields", 0, 3))
@@ -252,7 +259,7 @@ func H_recog_fieldsof() {
 		return
 	}
 	vCover("fieldsof-accepted")
-	vA("C12", what == 0 || what == 1 || what == 4, "FieldsOf accepts a pointer to a struct or to a pointer to a struct")
+	vA("C12", what == 0 || what == 1 || what == 4 || what == 10, "FieldsOf accepts a pointer to a struct or to a pointer to a struct")
 	vA("C12", len(fs) == nf && nf >= 1, "one field provider per named field")
 	for _, f := range fs {
 		vA("C12", f.Name == "A" && len(f.Out) == 1+b2i(what == 1), "field providers provide the field type, plus a pointer for pointer-to-struct parents")
@@ -352,5 +359,137 @@ func H_recog_expr() {
 		_, isSet := item.(*ProviderSet)
 		vA("C10", isSet, "a provider-set variable yields its provider set")
 		vCover("var-set-accepted")
+	}
+}
+
+
+// H_recog_ivalue: wire.InterfaceValue / wire.Value on every kind of value argument.
+func H_recog_ivalue() {
+	e := newRecogEnv()
+	useValue := vConcBool(vBool("plainValue"))
+	what := []int{2, 0, 8}[vConc(vInt("what0", 0, 2))]
+	var args []ast.Expr
+	if !useValue {
+		a0, _ := e.ptrExpr("a0", what)
+		args = append(args, a0)
+	}
+	var val ast.Expr
+	vkind := vConc(vInt("valueKind", 0, 4))
+	switch vkind {
+	case 0: // nil
+		val = e.typed(e.ident("nil", types.Universe.Lookup("nil")), types.Typ[types.UntypedNil])
+	case 1: // C{} implements I
+		val = e.typed(&ast.CompositeLit{Type: e.typeIdent(e.C)}, e.C)
+	case 2: // 1
+		val = e.typed(&ast.BasicLit{Kind: token.INT, Value: "1"}, types.Typ[types.Int])
+	case 3: // a variable of type C
+		val = e.typed(e.ident("cVar", types.NewVar(token.NoPos, e.pkg, "cVar", e.C)), e.C)
+	default: // a variable of interface type K
+		val = e.typed(e.ident("kVar", types.NewVar(token.NoPos, e.pkg, "kVar", e.K)), e.K)
+	}
+	args = append(args, val)
+	var v *Value
+	var err error
+	if useValue {
+		v, err = processValue(e.fset, e.info, &ast.CallExpr{Fun: e.wireFun("Value", false), Args: args})
+	} else {
+		v, err = processInterfaceValue(e.fset, e.info, &ast.CallExpr{Fun: e.wireFun("InterfaceValue", false), Args: args})
+	}
+	if err != nil {
+		checkErrs([]error{err})
+		vCover("value-refused")
+		return
+	}
+	vCover("value-accepted")
+	vA("C13", v != nil && v.Out != nil && v.expr == val, "an accepted value provides the written expression")
+	if !useValue {
+		vA("C13,C11", what == 2 && (vkind == 1 || vkind == 3 || vkind == 4 || vkind == 0), "InterfaceValue takes a pointer to an interface and a value implementing it")
+	} else {
+		vA("C13", vkind != 4, "wire.Value refuses values of interface type")
+	}
+	// the package-level variable Wire will declare for the value must have a valid name and a type
+	name := typeVariableName(e.info.TypeOf(val), "", func(name string) string { return "_wire" + export(name) + "Value" }, func(string) bool { return false })
+	vA("C14,C01,C13", token.IsIdentifier(name), "the variable declared for a value has a valid identifier as its name")
+}
+
+// H_load_vars: the provider-set-variable loop of Load (wire check / wire show)
+// on package-level variables of type wire.ProviderSet with every kind of
+// initializer. C20: no panic, positioned errors; C19: a set is listed exactly
+// when it is well-formed.
+func H_load_vars() {
+	e := newRecogEnv()
+	provSetT := types.NewNamed(types.NewTypeName(token.NoPos, e.wirePkg, "ProviderSet", nil), types.NewStruct(nil, nil), nil)
+	nvars := vConc(vInt("nvars", 1, 2))
+	initKind := make([]int, nvars)
+	var vars []*types.Var
+	for i := 0; i < nvars; i++ {
+		v := types.NewVar(token.NoPos, e.pkg, fmt.Sprintf("Set%d", i), provSetT)
+		vars = append(vars, v)
+		e.pkg.Scope().Insert(v)
+		initKind[i] = vConc(vInt(fmt.Sprintf("init%d", i), 0, 5))
+	}
+	fset := token.NewFileSet()
+	pk := &packages.Package{PkgPath: "example.com/user", Name: "user", Fset: fset, Types: e.pkg, TypesInfo: e.info}
+	vStub("github.com/google/wire/internal/wire.load", func(ctx context.Context, wd string, env []string, tags string, patterns []string) ([]*packages.Package, []error) {
+		return []*packages.Package{pk}, nil
+	})
+	wirePN := types.NewPkgName(token.NoPos, e.pkg, "wire", e.wirePkg)
+	vStub("(*github.com/google/wire/internal/wire.objectCache).varDecl", func(oc *objectCache, obj *types.Var) *ast.ValueSpec {
+		idx := 0
+		for i, v := range vars {
+			if v == obj {
+				idx = i
+			}
+		}
+		spec := &ast.ValueSpec{Names: []*ast.Ident{ast.NewIdent(obj.Name())}}
+		switch initKind[idx] {
+		case 0: // wire.NewSet()
+			spec.Values = []ast.Expr{&ast.CallExpr{Fun: e.wireFun("NewSet", false)}}
+		case 1: // wire.ProviderSet{}
+			spec.Values = []ast.Expr{&ast.CompositeLit{Type: &ast.SelectorExpr{X: e.ident("wire", wirePN), Sel: e.ident("ProviderSet", provSetT.Obj())}}}
+		case 2: // another provider-set variable (the other one, or itself when there is only one)
+			other := vars[(idx+1)%nvars]
+			spec.Values = []ast.Expr{e.ident(other.Name(), other)}
+		case 3: // the result of an ordinary function
+			spec.Values = []ast.Expr{&ast.CallExpr{Fun: e.ident("makeSet", types.NewFunc(token.NoPos, e.pkg, "makeSet", types.NewSignature(nil, nil, nil, false)))}}
+		case 4: // no initializer: var S wire.ProviderSet
+		default: // a parenthesised set
+			spec.Values = []ast.Expr{&ast.ParenExpr{X: &ast.CallExpr{Fun: e.wireFun("NewSet", false)}}}
+		}
+		return spec
+	})
+	// alias cycles (var A = B; var B = A) do not type-check in Go: excluded
+	if nvars == 2 && initKind[0] == 2 && initKind[1] == 2 {
+		vPrune()
+	}
+	if nvars == 1 && initKind[0] == 2 {
+		vPrune()
+	}
+	info, errs := Load(nil, "/wd", nil, "", []string{"."})
+	checkErrs(errs)
+	wellFormed := func(i int) bool {
+		k := initKind[i]
+		if k == 2 {
+			k = initKind[(i+1)%nvars]
+		}
+		return k == 0 || k == 5
+	}
+	vA("C20", info != nil, "Load returns its findings next to the errors")
+	if info == nil {
+		return
+	}
+	for i := 0; i < nvars; i++ {
+		_, listed := info.Sets[ProviderSetID{ImportPath: "example.com/user", VarName: fmt.Sprintf("Set%d", i)}]
+		vA("C19", listed == wellFormed(i), "a provider-set variable is listed exactly when it is well-formed")
+	}
+	allOK := true
+	for i := 0; i < nvars; i++ {
+		allOK = allOK && wellFormed(i)
+	}
+	vA("C19", (len(errs) == 0) == allOK, "check reports an error exactly when some provider-set variable is not well-formed")
+	if len(errs) > 0 {
+		vCover("vars-rejected")
+	} else {
+		vCover("vars-accepted")
 	}
 }
